@@ -1,6 +1,14 @@
-"""C09: whole-file round trips of the simple CCCC formats with the header integers (geometry type, dimension counts,
-block counts, optional-record flags) as symbolic inputs: every feasible combination within the bounds is explored,
-the file is written by the real Stream class into memory and read back by the same class."""
+"""C09: whole-file round trips of the simple CCCC formats (GEODST, PWDINT, RTFLUX/ATFLUX) with the header integers
+(geometry type, coarse AND fine mesh counts, the counts of the geometry-data record, block counts, optional-record
+flags) as symbolic inputs: every feasible combination within the bounds is explored, the file is written by the real
+Stream class into memory and read back by the same class.
+
+Obligations, from the property text: the reader accepts and consumes what the writer produced; every record the header
+announces reads back (arrays hold pairwise different numbers, so dropped or permuted entries show); the header reads
+back; writing what was read reproduces the file byte for byte; the binary file is a sequence of records framed by two
+equal byte counts and holds exactly as many records as the header integers announce (independent walk over the bytes);
+where the CCCC text / module documentation states the order of the numbers inside a record, one record is compared
+with it byte-wise (reader and writer share one routine, so a round trip cannot see that order)."""
 import io
 import struct
 
@@ -81,12 +89,6 @@ class RoundTrip:
                 ctx.check("the file holds exactly the records its header announces",
                           self.records is not None and len(self.records) == numRecords)
         return True
-
-
-def roundtrip(ctx, streamCls, data, binary=True):
-    """write `data`, read into a fresh container; returns (new container, leftover bytes, error or None)"""
-    c = RoundTrip(streamCls, data, binary)
-    return c.back, c.left, c.err
 
 
 def same_array(a, b, rtol=1e-6):
